@@ -202,7 +202,11 @@ def abs_data(data):
 
 
 # ------------------------------------------------------------------ the random generator
-PROGRAMS = ['example.com/cmd/p1', 'example.com/cmd/p2', 'golang.org/x/tools/gopls', 'cmd/go', 'example.com/cmd/p1/sub', 'example.com/cmd/p']
+PROGRAMS = ['example.com/cmd/p1', 'example.com/cmd/p2', 'golang.org/x/tools/gopls', 'cmd/go', 'example.com/cmd/p1/sub', 'example.com/cmd/p',
+            'example.com/cmd', 'golang.org/x/tools']
+# program paths and counter names share the '/' separator: pairs (P, P/x) whose strings split into (program, name) in two ways
+NESTED = [('example.com/cmd', 'example.com/cmd/p1'), ('example.com/cmd/p1', 'example.com/cmd/p1/sub'), ('golang.org/x/tools', 'golang.org/x/tools/gopls'),
+          ('example.com/cmd', 'example.com/cmd/p1/sub')]
 VERSIONS = ['v1.0.0', 'v1.1.0', 'v0.9.0', 'devel', 'go1.21.0', 'v1.0.0-pre', '']
 GOVERS = ['go1.21.0', 'go1.22.1', 'go1.20.3', 'go1.21', 'devel +abc']
 GOOSES = ['linux', 'darwin', 'windows', 'plan9', 'Linux']
@@ -293,19 +297,39 @@ def rand_rate(rng, d):
     return rng.choice([0, 1, d // 4, d // 2, d // 2 + 1, (3 * d) // 4, d - 1, d, d, d, rng.randint(0, d)])
 
 
+def rand_prog(rng, d, name, prefix=''):
+    """A program entry; with `prefix` its counter / stack names are prefix + <name>."""
+    counters, seen = [], set()
+    for _ in range(rng.choice([0, 1, 2, 3, 4, 5]) + (2 if prefix else 0)):
+        e = (prefix if rng.random() < 0.7 else '') + rand_counter_entry(rng)
+        ex = set(Sem.expand(e))
+        if not Sem.wf_counter(e) or ex & seen:
+            continue
+        seen |= ex
+        counters.append({'name': e, 'rate': rand_rate(rng, d)})
+    stacks = [{'name': (prefix if rng.random() < 0.7 else '') + s, 'rate': rand_rate(rng, d)} for s in rng.sample(STACKS, rng.choice([0, 1, 1, 2, 3]))]
+    if len(set(s['name'] for s in stacks)) != len(stacks):
+        stacks = stacks[:1]
+    versions = rng.sample(VERSIONS, rng.choice([1, 1, 2, 3]))
+    if prefix and rng.random() < 0.3:
+        versions.append(prefix + rng.choice(VERSIONS[:4]))
+    return {'name': name, 'versions': versions, 'counters': counters, 'stacks': stacks}
+
+
 def rand_cfg(rng, d):
     progs = []
-    for name in rng.sample(PROGRAMS, rng.choice([1, 1, 2, 2, 3])):
-        counters, seen = [], set()
-        for _ in range(rng.choice([0, 1, 2, 3, 4, 5])):
-            e = rand_counter_entry(rng)
-            ex = set(Sem.expand(e))
-            if not Sem.wf_counter(e) or ex & seen:
-                continue
-            seen |= ex
-            counters.append({'name': e, 'rate': rand_rate(rng, d)})
-        stacks = [{'name': s, 'rate': rand_rate(rng, d)} for s in rng.sample(STACKS, rng.choice([0, 1, 1, 2, 3]))]
-        progs.append({'name': name, 'versions': rng.sample(VERSIONS, rng.choice([1, 1, 2, 3])), 'counters': counters, 'stacks': stacks})
+    if rng.random() < 0.3:
+        # nested program paths: P lists names "x/<name>", P/x is another program of the configuration
+        outer, inner = rng.choice(NESTED)
+        progs.append(rand_prog(rng, d, outer, inner[len(outer) + 1:] + '/'))
+        progs.append(rand_prog(rng, d, inner))
+        if rng.random() < 0.3:
+            name = rng.choice([n for n in PROGRAMS if n not in (outer, inner)])
+            progs.append(rand_prog(rng, d, name))
+        rng.shuffle(progs)
+    else:
+        for name in rng.sample(PROGRAMS, rng.choice([1, 1, 2, 2, 3])):
+            progs.append(rand_prog(rng, d, name))
     return {'goos': rng.sample(GOOSES[:4], rng.choice([1, 2, 3])), 'goarch': rng.sample(GOARCHES[:3], rng.choice([1, 2])),
             'gover': rng.sample(GOVERS, rng.choice([1, 2, 3])), 'sample': rng.choice([0, 0, 0, d, d, d // 2, rng.randint(1, d)]),
             'progs': progs}
@@ -358,6 +382,15 @@ def rand_local_names(rng, cfg, prog, k):
             pool_c += (Sem.expand(c['name']) + [c['name']]) * w
         for s in p['stacks']:
             pool_s += [s['name']] * w
+    for p in cfg['progs']:
+        # what an enclosing program path lists as "<rest of prog's path>/<name>": <name> itself is a near-miss for prog
+        if prog.startswith(p['name'] + '/'):
+            sfx = prog[len(p['name']) + 1:] + '/'
+            for c in p['counters']:
+                pool_c += [e[len(sfx):] for e in Sem.expand(c['name']) if e.startswith(sfx) and len(e) > len(sfx)] * 6
+            for s in p['stacks']:
+                if s['name'].startswith(sfx) and len(s['name']) > len(sfx):
+                    pool_s += [s['name'][len(sfx):]] * 6
     pool_c = pool_c or ['c', 'c:a']
     pool_s = pool_s or ['s']
     names = set()
